@@ -484,7 +484,7 @@ Qed.
 
 (* ---- every step preserves the invariant ------------------------------------------------------------------------------------ *)
 Lemma nz_cmoved s : nz_free (ids_slot (cmoved s)).
-Proof. intros a Ha. destruct s as [| |[[[b t] r]|]|]; try reflexivity. unfold cmoved. destruct (Nat.leb 5 t); reflexivity. Qed.
+Proof. intros a Ha. destruct s as [| |r|]; reflexivity. Qed.
 Lemma nz_map_cmoved q : nz_free (ids_row (map cmoved q)).
 Proof. intros a Ha. unfold ids_row. induction q; simpl; auto. rewrite cnt_app, (nz_cmoved _ a Ha). exact IHq. Qed.
 
@@ -570,7 +570,7 @@ Proof.
     destruct (cupd_cnt _ _ _ _ Hu2) as (x2 & x2' & _ & B2 & C2). inversion B2; subst x2'.
     destruct (cupd_cnt _ _ _ _ Hu1) as (x1 & x1' & A1 & B1 & C1). inversion B1; subst x1'.
     rewrite A1 in Es. inversion Es; subst x1.
-    specialize (C2 a). specialize (C1 a). rewrite (nz_map_cmoved s a Ha) in C1. lia.
+    specialize (C2 a). specialize (C1 a). rewrite ids_zero_row, cnt_nil in C1. lia.
   - (* OMoveAppend *) simpl. destruct (ro st h1 || ro st h2); auto. destruct (Nat.eqb h1 h2) eqn:Eh; auto. apply Nat.eqb_neq in Eh.
     destruct (opt_bind (row_of st h1) (fun r => opt_bind (cget r p1) _)) as [s|] eqn:Es; simpl; auto.
     destruct (is_cs s) eqn:Hcs; simpl; auto.
